@@ -166,6 +166,33 @@ def _system_case(args):
     return out
 
 
+# the zone each catalogued country lives in (independent of the library: general geography; compared by UTC offsets, so aliases are fine)
+EXPECTED_ZONE = {"Algeria": "Africa/Algiers", "Austria": "Europe/Vienna", "Belgium": "Europe/Brussels", "Finland": "Europe/Helsinki", "France": "Europe/Paris",
+                 "Germany": "Europe/Berlin", "Hungary": "Europe/Budapest", "Italy": "Europe/Rome", "Malaysia": "Asia/Kuala_Lumpur", "Morocco": "Africa/Casablanca",
+                 "Norway": "Europe/Oslo", "Poland": "Europe/Warsaw", "Romania": "Europe/Bucharest", "Senegal": "Africa/Dakar", "Tunisia": "Africa/Tunis",
+                 "United Kingdom": "Europe/London"}
+
+
+def _catalogue_case(_):
+    """the predefined countries convert local time with the offsets of the country they name"""
+    out = {"case": "country-catalogue", "status": "ok", "fails": [], "unknown": []}
+    try:
+        import inspect
+        from efootprint.constants.countries import Countries
+        probes = [datetime(2025, m, 15, 12) for m in (1, 4, 7, 11)] + [datetime(2024, 3, 31, 12), datetime(2024, 10, 27, 12)]
+        for n, v in inspect.getmembers(Countries):
+            if not (n.isupper() and callable(v)): continue
+            c = v(); name = c.name
+            if name not in EXPECTED_ZONE: out["unknown"].append(name); continue
+            got, want = c.timezone.value, pytz.timezone(EXPECTED_ZONE[name])
+            bad = [str(t) for t in probes if got.utcoffset(t) != want.utcoffset(t)]
+            if bad: out["fails"].append(f"catalogue-zone-of-{name}: {getattr(got, 'zone', got)} differs from {EXPECTED_ZONE[name]} at {bad[:2]}")
+        if out["fails"]: out["status"] = "fails"
+    except Exception:
+        out["status"] = "harness-error"; out["error"] = traceback.format_exc()[-700:]
+    return out
+
+
 def transitions_between(tz, lo, hi):
     if not hasattr(tz, "_utc_transition_times"): return []
     return [t for t in tz._utc_transition_times if lo <= t <= hi]
@@ -211,6 +238,7 @@ def run(tier, seed, procs=16):
         if tname.startswith("dst_"):
             for k in range(0, 9): sitems.append((tname, "simulation", f"hour{k}" if k else "first"))
     res += [r for r in H.run_parallel(_system_case, sitems, procs) if r["status"] != "skip"]
+    res.append(_catalogue_case(None))
     viol, samples, nontrivial = [], [], set()
     for r in res:
         if r["status"] == "harness-error": raise RuntimeError("bounded harness error: " + r.get("error", ""))
@@ -224,6 +252,7 @@ def run(tier, seed, procs=16):
             "rule": "one case = (IANA zone, local start, length): a local hourly series straddling a UTC-offset transition of the zone (or an ordinary period); "
                     "result compared with an oracle computed from the pytz transition tables: strictly increasing unique UTC index, total preserved, every value at local time minus the offset in force, repeated/skipped hours merged",
             "samples": samples, "violations": viol, "exhaustive": tier == "thorough",
+            "catalogue": "the 16 predefined countries use the UTC offsets of the country they name (independent table, compared at 6 instants)",
             "in_systems": "UTC series of every usage pattern of every topology as built, after moving the pattern to a country in another zone, and while a simulation dated at each hour around a daylight-saving change is switched on",
             "combined": "8 zone pairs (same end offsets / different change dates, identical calendars, no-DST, fractional offsets) over whole years and 96-hour windows: a+b, b+a and sum() vs the per-timestamp sum",
             "bound": f"{len(zones)} zones ({'all common IANA zones, every transition 2010-2030' if tier == 'thorough' else '15 fixed + 25 sampled, 4 sampled transitions each'}), series of 7 to 38 hours"}
